@@ -2,6 +2,7 @@
 from pyvc.harness import PROPERTY_MODULES
 
 PROPERTY_MODULES.update({
+    "C01": "contracts.C01_rates",
     "C03": "contracts.C03_interpolators",
     "C06": "contracts.C06_test_statistics",
     "C07": "contracts.C07_asymptotics",
